@@ -232,7 +232,7 @@ def step (env : Env) (i : Instr) (s : St) : Option St :=
   | .filesize, st => next (env.filesize :: st)
   | .extVal name, st => next (toVm (lookupExt env name) :: st)
   | .undefVal, st => next (C.UNDEF :: st)
-  | .pushRule k, st => next (C.b2i (env.rules.getD k false) :: st)
+  | .pushRule k, st => next ((if env.disabled.contains k then C.UNDEF else C.b2i (env.rules.getD k false)) :: st)   -- RULE_IS_DISABLED: undefined
   | .found, sv :: st => next (C.b2i (!(matchesOfStr env sv).isEmpty) :: st)
   | .foundAt, sv :: x :: st =>
       next ((if isU x then C.UNDEF else C.b2i ((matchesOfStr env sv).any fun m => m.1 == x)) :: st)
